@@ -29,9 +29,11 @@ def one(idx_entry):
         p = os.path.join(d, rel)
         s = open(p).read()
         n = s.count(old)
-        if n == 0 or (nth is None and n != 1):
+        if nth == "all" and n > 0:
+            s = s.replace(old, new)
+        elif n == 0 or (nth is None and n != 1):
             return idx, pid, "STALE", "old text occurs %d times in %s (corpus out of date with the tree)" % (n, rel)
-        if nth is None:
+        elif nth is None:
             s = s.replace(old, new)
         else:
             i = -1
